@@ -472,6 +472,19 @@ def r_timestamp_partial(doc, rng):
                     yield 'timestamp removed from family %d group %d sample %d only' % (fi, gi, k), with_group(doc, fi, gi, out)
 
 
+def other_spellings(k):
+    """name tokens that decode to the label name k but are spelled differently from the generator's own token"""
+    own = omgen.key_token(k)
+    out = []
+    if omgen.is_legacy_label(k):
+        out.append('"%s"' % k)                       # a legacy name written quoted
+    else:
+        if '\\' in k:
+            out.append('"%s"' % k.replace('\n', '\\n').replace('"', '\\"'))   # backslash left unescaped: `\s` is no escape sequence
+    out += [' ' + own, own + ' ']                    # blanks around the token are stripped before it is decoded
+    return [t for t in out if t != own]
+
+
 def r_duplicate_label(doc, rng):
     for fi, f, gi, g, k, s in all_samples(doc):
         for j, (a, b) in enumerate(s.labels):
@@ -479,10 +492,31 @@ def r_duplicate_label(doc, rng):
                 s2 = copy.deepcopy(s)
                 s2.labels = s.labels[:pos] + [(a, rng.choice([b, b + 'x', '']))] + s.labels[pos:]
                 yield 'label %r of family %d sample %d,%d duplicated at %d' % (a, fi, gi, k, pos), with_sample(doc, fi, gi, k, s2)
+                # the same name under another spelling of its token (bare <-> quoted, other escape spelling, padded)
+                for tok in other_spellings(a):
+                    s2 = copy.deepcopy(s)
+                    s2.labels = s.labels[:pos] + [(omgen.RawKey(a, tok), rng.choice([b, b + 'x']))] + s.labels[pos:]
+                    yield ('label %r of family %d sample %d,%d duplicated at %d as %r' % (a, fi, gi, k, pos, tok)), with_sample(doc, fi, gi, k, s2)
         if s.exemplar is not None and s.exemplar[0]:
             ls, v, t = s.exemplar
             s2 = copy.deepcopy(s); s2.exemplar = (ls + [ls[0]], v, t)
             yield 'exemplar label of family %d sample %d,%d duplicated' % (fi, gi, k), with_sample(doc, fi, gi, k, s2)
+            for j, (a, b) in enumerate(ls):
+                for tok in other_spellings(a):
+                    for pos in range(len(ls) + 1):
+                        s2 = copy.deepcopy(s)
+                        s2.exemplar = (ls[:pos] + [(omgen.RawKey(a, tok), b)] + ls[pos:], v, t)
+                        yield ('exemplar label %r of family %d sample %d,%d duplicated at %d as %r' % (a, fi, gi, k, pos, tok)), with_sample(doc, fi, gi, k, s2)
+        elif omgen_eligible(f, s):
+            # give an eligible sample an exemplar whose label comes twice, once bare and once quoted
+            for pair in ([('t', 'x'), (omgen.RawKey('t', '"t"'), 'y')], [(omgen.RawKey('t', '"t"'), 'x'), ('t', 'x')],
+                         [('b\\s', 'x'), (omgen.RawKey('b\\s', '"b\\s"'), 'x')]):
+                s2 = copy.deepcopy(s); s2.exemplar = (pair, '1', None)
+                yield 'exemplar with one label in two spellings on family %d sample %d,%d' % (fi, gi, k), with_sample(doc, fi, gi, k, s2)
+
+
+def omgen_eligible(f, s):
+    return typed(f) and ((f.typ in ('histogram', 'gaugehistogram') and s.name.endswith('_bucket')) or (f.typ == 'counter' and s.name.endswith('_total')))
 
 
 def eligible(f, s):
